@@ -50,6 +50,8 @@ type world struct {
 	cbLog   []string
 	accLTPK []byte
 	pin     string
+	lastOK  [][]byte // request bodies of the last completed pair-setup
+	wseg    int
 }
 
 func (w *world) code() string { return w.pin[:3] + "-" + w.pin[3:5] + "-" + w.pin[5:] }
@@ -249,7 +251,7 @@ func runStack(id string, toks []string) (res string) {
 		hclog.Debug.Enable()
 		hclog.Info.SetOutput(os.Stderr)
 	}
-	pin, nacc := setupCode, 0
+	pin, nacc, wseg := setupCode, 0, 0
 	frameSize = 1024
 	for _, op := range toks[1:] {
 		if strings.HasPrefix(op, "pin=") {
@@ -261,16 +263,20 @@ func runStack(id string, toks []string) (res string) {
 		if strings.HasPrefix(op, "fsz=") {
 			frameSize, _ = strconv.Atoi(op[4:])
 		}
+		if strings.HasPrefix(op, "wseg=") {
+			wseg, _ = strconv.Atoi(op[5:])
+		}
 	}
 	w, err := newWorld(pin, nacc)
 	if err != nil {
 		return "setup-error " + err.Error()
 	}
 	defer w.close()
+	w.wseg = wseg
 	var out []string
 	emit := func(s string) { out = append(out, s) }
 	for _, op := range toks[1:] {
-		if strings.HasPrefix(op, "tbl=") || strings.HasPrefix(op, "pin=") || strings.HasPrefix(op, "nacc=") || strings.HasPrefix(op, "fsz=") {
+		if strings.HasPrefix(op, "tbl=") || strings.HasPrefix(op, "pin=") || strings.HasPrefix(op, "nacc=") || strings.HasPrefix(op, "fsz=") || strings.HasPrefix(op, "wseg=") {
 			continue
 		}
 		p := strings.Split(op, ":")
@@ -282,6 +288,7 @@ func runStack(id string, toks []string) (res string) {
 				continue
 			}
 			cc.frameSize = frameSize
+			cc.writeSeg = w.wseg
 			w.conns[p[1]] = cc
 		case "K":
 			if cc := w.conns[p[1]]; cc != nil {
@@ -460,8 +467,24 @@ func (w *world) pairSetup(cn, ctrl, variant string) string {
 		step(s.m3("999-99-999", nil, false, false))
 	case "m5":
 		step(s.m5(nil, nil, id, id.priv, ""))
-	case "m5flip", "m5short", "m5empty", "m5inner":
-		step(s.m5(nil, nil, id, id.priv, map[string]string{"m5flip": "flip", "m5short": "short", "m5empty": "empty", "m5inner": "inner-garbage"}[variant]))
+	case "m5flip", "m5short", "m5empty", "m5inner", "m5zerosig", "m5nosig", "m5othersig":
+		step(s.m5(nil, nil, id, id.priv, map[string]string{"m5flip": "flip", "m5short": "short", "m5empty": "empty", "m5inner": "inner-garbage",
+			"m5zerosig": "zerosig", "m5nosig": "nosig", "m5othersig": "othersig"}[variant]))
+	case "replayok":
+		// the recorded request bodies of the last completed exchange (of any connection), replayed verbatim
+		if len(w.lastOK) == 0 {
+			return "S=norecord"
+		}
+		for _, body := range w.lastOK {
+			r, err := cc.request("POST", "/pair-setup", tlvCT, body)
+			if err != nil {
+				parts = append(parts, "closed")
+				break
+			}
+			m, _ := tlvDecode(r.body)
+			parts = append(parts, tlvSummary(m, r.status))
+		}
+		return "S=" + strings.Join(parts, "/") + "[]"
 	case "m5zerokey":
 		step(s.m5(zero, nil, id, id.priv, ""))
 	case "m5randkey":
@@ -487,6 +510,9 @@ func (w *world) pairSetup(cn, ctrl, variant string) string {
 	}
 	if len(s.accLTPK) == 32 {
 		w.accLTPK = s.accLTPK
+		if variant == "ok" {
+			w.lastOK = append([][]byte(nil), s.sent...)
+		}
 	}
 	return "S=" + strings.Join(parts, "/") + "[" + strings.Join(s.notes, "") + "]"
 }
@@ -547,6 +573,16 @@ func (w *world) pairVerify(cn, ctrl, variant string) string {
 	case "startonly":
 		fresh()
 		step(v.m1(nil, w.accLTPK))
+	case "startzerokeep", "badstartkeep":
+		// another start on this connection that does NOT replace the controller's record of the earlier exchange:
+		// a 32-byte all-zero (small-order) key, or a key of the wrong length
+		k := make([]byte, 32)
+		if variant == "badstartkeep" {
+			k = make([]byte, 31)
+			rand.Read(k)
+		}
+		tmp := &verifyRun{cc: cc}
+		step(tmp.m1(k, nil))
 	case "finish":
 		if v == nil {
 			return "V=nostate"
@@ -689,6 +725,16 @@ func (w *world) httpOp(p []string) string {
 		items := []tlvItem{{tState, []byte{1}}, {tMethod, []byte{method}}, {tName, []byte(id.name)}, {tPub, id.pub}, {tPerm, []byte{1}}}
 		if p[3] == "addnokey" {
 			items = []tlvItem{{tState, []byte{1}}, {tMethod, []byte{3}}, {tName, []byte(id.name)}, {tPerm, []byte{1}}}
+		}
+		if p[3] == "addshortkey" || p[3] == "addlongkey" {
+			method = 3
+			k := append([]byte(nil), id.pub...)
+			if p[3] == "addshortkey" {
+				k = k[:31]
+			} else {
+				k = append(k, 7)
+			}
+			items = []tlvItem{{tState, []byte{1}}, {tMethod, []byte{3}}, {tName, []byte(id.name)}, {tPub, k}, {tPerm, []byte{1}}}
 		}
 		body := tlvEncode(items)
 		r, e := do("POST", "/pairings", tlvCT, body)
